@@ -50,10 +50,47 @@ func ExtractMatrices(M tensor.Tensor, nMatrices, nDimensions, hiddenSize int) ([
 			return nil, err
 		}
 
-		matrices[i] = m
+		// Slicing drops the dimensions of size 1 (e.g. when hiddenSize is 1), so we restore them.
+		matrices[i], err = restoreShape(m, append([]int{hiddenSize}, M.Shape()[2:]...))
+		if err != nil {
+			return nil, err
+		}
 	}
 
 	return matrices, nil
+}
+
+// ExtractTimestep extracts the input for timestep t from the sequential input X, that has shape
+// (sequence_length, batch_size, input_size). The result has shape (batch_size, input_size).
+func ExtractTimestep(X tensor.Tensor, t int) (tensor.Tensor, error) {
+	Xt, err := X.Slice(NewSlicer(t, t+1), nil, nil)
+	if err != nil {
+		return nil, err
+	}
+
+	// Slicing drops the dimensions of size 1 (e.g. when batch_size is 1), so we restore them.
+	return restoreShape(Xt, X.Shape()[1:])
+}
+
+// restoreShape returns the sliced tensor with the given shape. When slicing has dropped
+// dimensions of size 1, a copy with the right shape is made.
+func restoreShape(sliced tensor.View, shape []int) (tensor.Tensor, error) {
+	// Note that Shape.Eq can not be used here, because it considers a vector of size n equal
+	// to a matrix of 1 by n.
+	if len(sliced.Shape()) == len(shape) {
+		return sliced, nil
+	}
+
+	restored, ok := sliced.Materialize().Clone().(tensor.Tensor)
+	if !ok {
+		return nil, ErrTypeAssert("tensor.Tensor", sliced.Materialize().Clone())
+	}
+
+	if err := restored.Reshape(shape...); err != nil {
+		return nil, err
+	}
+
+	return restored, nil
 }
 
 // ZeroTensor returns a tensor filled with zeros with the given shape.
